@@ -28,6 +28,13 @@ KEYS = ['A', 'BB', 'CCC', 'DDDD', 'EEEEE', 'FFFFFF', 'GGGGGGG', 'HHHHHHHH']
 def user_cards(n, off):
     d = {}
     exp = {}
+    if n >= 3:
+        # valid keywords that merely begin with / contain "END" must not end the header for any reader
+        d['ENDTIME'] = 77
+        exp['ENDTIME'] = ('int', 77)
+        d['XEND'] = 'END'
+        exp['XEND'] = ('str', 'END')
+        n = n - 2
     for j in range(n):
         base = KEYS[j % 8]
         key = (base[:max(1, len(base) - len(str(j)))] + str(j))[:8] if j >= 8 else base
@@ -283,6 +290,67 @@ def case_record(c):
                 pass
 
 
+def case_sequence(c):
+    """Histories: several recordings from the SAME backend object with different header settings; every
+    recording must be well-formed on its own terms (nothing carried over from the previous one)."""
+    from setigen.voltage import raw_utils
+    viol = []
+
+    def V(failure, detail, site='RawVoltageBackend.record'):
+        viol.append({'site': site, 'failure': failure, 'detail': detail})
+    cfg = _cfg(dict(c, bpf=2))
+    try:
+        be, src, dig, fb, rq = vharness.make_backend(cfg, seed=5)
+    except Exception as e:
+        V('constructor_raised', '%s: %s' % (type(e).__name__, e), site='RawVoltageBackend')
+        return {'viol': viol}
+    wd = engine.workdir()
+    stem = os.path.join(wd, 'c04s_%s' % engine.sha(c))
+    spb = cfg['r'] * cfg['M']
+    outs = []
+    for step, (dio, template, n_user, nb) in enumerate(c['steps']):
+        for fn in guppi.list_files(stem):
+            os.remove(fn)
+        hd, exp_user = user_cards(n_user, step)
+        if dio != 'absent':
+            hd['DIRECTIO'] = {'0': 0, '1': 1, 's1': '1'}[dio]
+        tag = 'recording %d of %s' % (step, c['steps'])
+        try:
+            be.record(output_file_stem=stem, num_blocks=nb, length_mode='num_blocks', header_dict=hd,
+                      load_template=template, verbose=False)
+        except Exception as e:
+            V('record_raised', '%s: %s: %s' % (tag, type(e).__name__, e))
+            break
+        try:
+            blocks = [b for fn in guppi.list_files(stem) for b in guppi.parse_file(fn)]
+        except guppi.GuppiFormatError as e:
+            V('framing_after_history', '%s: %s' % (tag, e))
+            break
+        if len(blocks) != nb:
+            V('blocks_after_history', '%s: %d blocks on disk' % (tag, len(blocks)))
+            break
+        want_dio = (dio in ('1', 's1')) or (dio == 'absent' and template)
+        for bi, b in enumerate(blocks):
+            if (b['pad'] > 0) and not want_dio:
+                V('padding_after_history', '%s: block %d padded although DIRECTIO is %s' % (tag, bi, dio))
+            if b['header'].get('PKTIDX') != bi * spb:
+                V('pktidx_after_history', '%s: block %d PKTIDX=%r expected %d' % (tag, bi, b['header'].get('PKTIDX'), bi * spb))
+            for k, (kind, val) in exp_user.items():
+                if k not in b['header']:
+                    V('user_card_lost', '%s: user card %s missing' % (tag, k))
+        try:
+            if raw_utils.get_total_blocks(stem) != nb or raw_utils.get_blocks_in_file(guppi.list_files(stem)[0]) != min(nb, 2):
+                V('count', '%s: library block counters disagree with the files' % tag, site='raw_utils.get_total_blocks')
+        except Exception as e:
+            V('raised', '%s: %s: %s' % (tag, type(e).__name__, e), site='raw_utils.get_total_blocks')
+        outs.append(len(blocks[0]['cards']))
+        if viol:
+            break
+    for fn in guppi.list_files(stem):
+        os.remove(fn)
+    return {'viol': viol, 'n': len(c['steps']), 'nontrivial': [engine.sha(c)], 'outcomes': ['seq/%s' % outs]}
+
+
 def run(ctx):
     T = ctx.tier == 'thorough'
     cases = []
@@ -329,6 +397,17 @@ def run(ctx):
                                           num_blocks=3, bpf=2, bits=8, perms=False, override=ov, user_pktidx=pk,
                                           npol=npol, asc=(npol == 1), fch1=6e9 if npol == 1 else 0.0, start_chan=0))
     ctx.pmap(case_record, cases)
+    # Box E: histories of recordings on one backend object
+    settings = [(dio, template, n_user, nb) for dio in ('absent', '0', '1') for template in (False, True)
+                for n_user, nb in ((0, 2), (5, 3))]
+    seqs = []
+    for a in settings:
+        for b in settings:
+            seqs.append(dict(box='E', steps=[list(a), list(b)], source='ant'))
+            if T:
+                for c3 in settings[::3]:
+                    seqs.append(dict(box='E', steps=[list(a), list(b), list(c3)], source='arr2'))
+    ctx.pmap(case_sequence, seqs)
     return ctx.finish(
         rule='complete enumeration of box A (user cards 0..40 x DIRECTIO setting x template x source x value-kind '
              'rotation), box B (num_blocks 1..5 x blocks_per_file 1..3 x source x bits x DIRECTIO x template x '
